@@ -13,6 +13,7 @@ from . import common, molprops
 
 SPEC = {
     "level": "exploration",
+    "suite_under_monitor": True,
     "technique": "runtime contract (icontract ensure) on graph_to_molfile: line-length/frame post-condition + read-back through the real reader compared position by position; length-targeted inputs",
     "rule": ("cases: graphs with attributes in the format's ranges whose atom lines are engineered to logical lengths 66..80, 137..150, 208..220 (index width, coordinate magnitudes up to 1e60, "
              "negative signs, CHG/RAD/MASS present or not) so that the wrap falls inside a number, after a minus sign, inside a keyword, directly before/after a blank; wide bond lines "
